@@ -30,10 +30,19 @@ impl SwiftField for Field86 {
     where
         Self: Sized,
     {
+        if input.lines().count() > 6 {
+            return Err(ParseError::InvalidFormat {
+                message: format!(
+                    "Field 86 cannot have more than 6 lines, found {}",
+                    input.lines().count()
+                ),
+            });
+        }
+
         let mut lines = Vec::new();
 
         // Parse up to 6 lines of 65 characters each
-        for line in input.lines().take(6) {
+        for line in input.lines() {
             // Validate line length (max 65 characters)
             if line.len() > 65 {
                 return Err(ParseError::InvalidFormat {
